@@ -86,9 +86,38 @@ impl Http3Codec {
                 Ok(())
             }
             StreamMessage::Shutdown(stream_id, direction) => {
-                self.on_stream_shutdown(stream_id, direction)
+                #[cfg(feature = "verif")]
+                let verif_dir = match direction {
+                    Some(quiche::Shutdown::Read) => "r",
+                    Some(quiche::Shutdown::Write) => "w",
+                    None => "b",
+                };
+                let r = self.on_stream_shutdown(stream_id, direction);
+                #[cfg(feature = "verif")]
+                self.verif_stream_op(format!("sd {} {}", stream_id, verif_dir));
+                r
             }
         }
+    }
+
+    /// Records one operation on the stream table together with the table it leaves
+    #[cfg(feature = "verif")]
+    fn verif_stream_op(&self, op: String) {
+        let mut all: Vec<(u64, bool, bool)> = self
+            .streams
+            .iter()
+            .map(|(k, v)| (*k, v.read_shutdown, v.write_shutdown))
+            .collect();
+        all.sort();
+        crate::verif::hooks::note_h3_stream_op(format!(
+            "{:p} {} => [{}]",
+            Arc::as_ptr(&self.codec_tx),
+            op,
+            all.iter()
+                .map(|(k, r, w)| format!("{}:{}{}", k, *r as u8, *w as u8))
+                .collect::<Vec<_>>()
+                .join(",")
+        ));
     }
 
     fn on_stream_shutdown(
@@ -131,7 +160,10 @@ impl Http3Codec {
     ) -> io::Result<Option<Box<dyn http_codec::Stream>>> {
         match event {
             QuicSocketEvent::Request(stream_id, request) => {
-                self.on_request(stream_id, *request).map(Some)
+                let r = self.on_request(stream_id, *request).map(Some);
+                #[cfg(feature = "verif")]
+                self.verif_stream_op(format!("req {}", stream_id));
+                r
             }
             QuicSocketEvent::Readable(stream_id) => {
                 self.on_stream_readable(stream_id).map(|_| None)
@@ -144,10 +176,14 @@ impl Http3Codec {
                 // Only the request direction has ended: wake the reader up to let it see
                 // the end of the stream, the response direction is ended by its writer
                 let _ = self.on_stream_readable(stream_id);
+                #[cfg(feature = "verif")]
+                self.verif_stream_op(format!("fin {}", stream_id));
                 Ok(None)
             }
             QuicSocketEvent::Close(stream_id) => {
                 let _ = self.on_stream_shutdown(stream_id, None);
+                #[cfg(feature = "verif")]
+                self.verif_stream_op(format!("close {}", stream_id));
                 Ok(None)
             }
         }
@@ -293,6 +329,8 @@ impl HttpCodec for Http3Codec {
                             e
                         );
                         let _ = self.on_stream_shutdown(stream_id, None);
+                        #[cfg(feature = "verif")]
+                        self.verif_stream_op(format!("err {}", stream_id));
                     }
                 }
                 Some(FiredEvent::Socket(event)) => match self.on_socket_event(event)? {
